@@ -178,7 +178,7 @@ func C06_Jobs() []string {
 		ks := string(rune('0'+k/10)) + string(rune('0'+k%10))
 		out = append(out, "struct/"+ks, "prim/"+ks, "slice/"+ks, "ptr/"+ks)
 	}
-	out = append(out, "json", "json-ptr", "env", "longkey", "validate-nil-ptrs", "two-dest-types", "long-slices")
+	out = append(out, "json", "json-ptr", "env", "longkey", "validate-nil-ptrs", "two-dest-types", "long-slices", "struct-input", "odd-tags/parse", "odd-tags/validate")
 	return out
 }
 func C06_Covers() []string { return []string{"returned"} }
@@ -318,6 +318,104 @@ func C06_Run(job string) {
 		v.Assert(n <= 5 || len(errs) == n-5+1+v.B2I(false), "C06:long-slice-result")
 		var ds struct{ L [][]int }
 		z.Struct(z.Schema{"l": z.Slice(z.Slice(z.Int()))}).Parse(map[string]any{"l": []any{in, in}}, &ds)
+	case "struct-input":
+		// Go structs as input (schema keys name the source fields): embedded structs by value and by
+		// (nil) pointer, mismatching field types, interface-typed and pointer-typed fields
+		n := v.Int("n")
+		str := v.String("s", 1)
+		type emb struct {
+			A int
+			B string
+		}
+		type viaNilPtr struct {
+			*emb
+			N c06Inner
+		}
+		type viaVal struct {
+			emb
+			L []int
+		}
+		type mismatch struct {
+			A string
+			B int
+			N int
+			L string
+			P c06Inner
+		}
+		type loose struct {
+			A any
+			B *string
+			N any
+			L any
+			P **int
+		}
+		np := &n
+		var in any
+		switch v.Choice("in", 9) {
+		case 0:
+			in = c06In{A: n, B: str, N: c06Inner{X: n}, L: []int{n}, P: np}
+		case 1:
+			in = &c06In{A: n, B: str}
+		case 2:
+			in = viaNilPtr{N: c06Inner{X: n}}
+		case 3:
+			in = viaNilPtr{emb: &emb{A: n, B: str}}
+		case 4:
+			in = viaVal{emb: emb{A: n, B: str}, L: []int{n}}
+		case 5:
+			in = mismatch{A: str, B: n, N: n, L: str}
+		case 6:
+			in = loose{}
+		case 7:
+			in = loose{A: str, B: &str, N: map[string]any{"X": str}, L: []any{str, nil}, P: &np}
+		case 8:
+			in = &viaNilPtr{}
+		}
+		var d c06In
+		z.Struct(z.Schema{"A": z.Int(), "B": z.String().Required(), "N": z.Struct(z.Schema{"X": z.Int().Required()}),
+			"L": z.Slice(z.Int()), "P": z.Ptr(z.Int())}).Parse(in, &d)
+	case "odd-tags":
+		// struct tags are configuration a destination type may legally carry: empty, punctuation,
+		// bracket-led, non-ASCII and very long tag values at every depth, with a failing leaf under each
+		type leaf struct {
+			E int `zog:""`
+			D int `zog:"."`
+			K int `zog:"[k"`
+			U int `zog:"ключ"`
+			J int `json:"" zog:""`
+			W int `zog:"a tag that is considerably longer than thirty-two bytes, with spaces"`
+		}
+		type mid struct {
+			In leaf   `zog:""`
+			Sl []leaf `zog:"[]"`
+			P  *leaf  `zog:"-"`
+		}
+		type top struct {
+			M  mid `zog:""`
+			M2 mid
+		}
+		lf := func() *z.StructSchema {
+			return z.Struct(z.Schema{"e": z.Int().GT(5).Required(), "d": z.Int().GT(5).Required(), "k": z.Int().GT(5).Required(),
+				"u": z.Int().GT(5).Required(), "j": z.Int().GT(5).Required(), "w": z.Int().GT(5).Required()})
+		}
+		md := func() *z.StructSchema {
+			return z.Struct(z.Schema{"in": lf(), "sl": z.Slice(lf()), "p": z.Ptr(lf())})
+		}
+		sc := z.Struct(z.Schema{"m": md(), "m2": md()})
+		var d top
+		v.MapOrderChoice(false) // the visit order is not the subject here (C09)
+		if b == "validate" {
+			d.M.Sl = []leaf{{}, {E: 1}}
+			d.M.P = &leaf{}
+			d.M2.Sl = []leaf{{}}
+			sc.Validate(&d)
+		} else {
+			x := v.Int("x")
+			lm := map[string]any{"": x, ".": x, "[k": x, "ключ": x}
+			mm := map[string]any{"": lm, "[]": []any{lm, map[string]any{}}, "-": lm, "in": lm, "sl": []any{lm}, "p": lm}
+			sc.Parse(map[string]any{"": mm, "m2": mm}, &d)
+			sc.Parse(map[string]any{}, &d)
+		}
 	case "validate-nil-ptrs":
 		var d c06Dest
 		c06Schema().Validate(&d)
